@@ -111,23 +111,44 @@ REJECTED = [
     ("last_custom_error", [([], star(USER)), RESP, ([], I("MyErr"))]),
     ("last_ptr_error", [RESP, ([], star(I("error")))]),
     ("two_results_first_wrong", [([], star(USER)), ERR]),
+    # the input classes of the two repaired defects (fixed findings K_rest_array_result, K_rest_multi_name_result)
+    ("array_result", [([], ("arr", "2", INT)), RESP, ERR]),
+    ("array_of_struct_result", [([], ("arr", "3", USER)), RESP, ERR]),
+    ("multi_name_3", [(["a", "b"], RESP[1]), (["err"], ERR[1])]),
+    ("multi_name_2", [(["a", "b"], RESP[1])]),
+    ("multi_name_errs", [(["r"], RESP[1]), (["e1", "e2"], ERR[1])]),
+    ("multi_name_4", [(["u", "v"], star(USER)), (["r"], RESP[1]), (["e"], ERR[1])]),
+    ("multi_name_all_three", [(["a", "b", "c"], ERR[1])]),
 ]
 
 def random_results(rng):
-    """a random result list over the whole field grammar (0..5 fields, all named or all unnamed, accepted and
-    refused types in any position).  Multi-name fields and top-level arrays are left out: those are the input
-    classes of the open findings K_rest_multi_name_result / K_rest_array_result."""
+    """a random result list over the whole field grammar (0..5 values, all named or all unnamed, multi-name
+    fields `a, b T`, accepted and refused types incl. arrays in any position)"""
     resp_like = [RESP[1], ("sel", "http", "Response"), star(("sel", "http", "Request")), star(USER)]
     err_like = [ERR[1], I("MyErr"), star(I("error")), STRING]
     first = BASE_RESULTS + MORE_RESULTS + [USER, INT, ANY, TIME, ANON, EMPTY_IFACE, ("other", "*ast.FuncType", "func() int"),
-                                            ("other", "*ast.ChanType", "chan int"), ("other", "*ast.IndexExpr", "Box[int]")]
+                                            ("other", "*ast.ChanType", "chan int"), ("other", "*ast.IndexExpr", "Box[int]"),
+                                            ("arr", "2", INT), ("arr", "4", star(USER))]
     n = rng.choice([0, 1, 2, 2, 2, 3, 3, 3, 3, 4, 5])
     types = [rng.choice(first + resp_like + err_like) for _ in range(n)]
     if n >= 2 and rng.random() < 0.7:
         types[-1] = ERR[1] if rng.random() < 0.85 else rng.choice(err_like)
         types[-2] = RESP[1] if rng.random() < 0.85 else rng.choice(resp_like)
-    names = rng.sample(["a", "b", "r", "res", "resp", "e", "err", "u"], n) if rng.random() < 0.25 else None
-    return [([names[i]] if names else [], t) for i, t in enumerate(types)]
+    names = rng.sample(["a", "b", "r", "res", "resp", "e", "err", "u"], n) if rng.random() < 0.3 else None
+    if not names:
+        return [([], t) for t in types]
+    # named results: neighbours of one type are merged into one multi-name field half of the time
+    fields = []
+    for nm, t in zip(names, types):
+        if fields and fields[-1][1] == t and rng.random() < 0.5:
+            fields[-1][0].append(nm)
+        else:
+            fields.append(([nm], t))
+    if n >= 2 and rng.random() < 0.3:
+        # force a multi-name field: repeat the type of a random value on its neighbour
+        k = rng.randrange(len(fields))
+        fields[k][0].append("x%d" % k)
+    return fields
 
 
 VERBS = ["Get", "Post", "Put", "Patch", "Delete"]
